@@ -307,7 +307,10 @@ fn expiry(out: &mut Out, r: &mut Rng) {
     let mut id = r.next() as u16;
     let a = Raw::make(r, 40);
     let ab = a.bytes();
-    let fa = split::<Raw>(out, 14, &mut id, a, &ab).unwrap();
+    let fa = match split::<Raw>(out, 14, &mut id, a, &ab) {
+        Some(f) if f.len() >= 2 => f,
+        _ => return, // the splitting contract is already reported as violated
+    };
     for fr in fa.iter().take(fa.len() - 1) {
         if feed(out, &mut f, fr.clone(), "expiry").is_err() {
             return;
@@ -340,8 +343,10 @@ fn expiry(out: &mut Out, r: &mut Rng) {
     let ab = a.bytes();
     let b = Raw::make(r, 30);
     let bb = b.bytes();
-    let fa = split::<Raw>(out, 14, &mut id0, a, &ab).unwrap();
-    let fb = split::<Raw>(out, 14, &mut id1, b, &bb).unwrap();
+    let (fa, fb) = match (split::<Raw>(out, 14, &mut id0, a, &ab), split::<Raw>(out, 14, &mut id1, b, &bb)) {
+        (Some(x), Some(y)) if x.len() >= 2 && y.len() >= 2 => (x, y),
+        _ => return,
+    };
     let start = std::time::Instant::now();
     let mut got_a = 0;
     for fr in &fa {
